@@ -27,7 +27,7 @@ PROPS = {
         "eval_extra": [], "probes": ["out-of-order file present", "compacted file (level>0) present", "size-triggered flush"],
         "assumptions": ["single client; background work runs only as scheduled operations", "integers inside +-2^53, no NaN/Inf"],
         "quick": {"runs": 7000, "budget_s": 120, "workers": 14},
-        "thorough": {"runs": 60000, "budget_s": 1500, "workers": 16},
+        "thorough": {"runs": 60000, "budget_s": 1500, "workers": 16, "env": {"VERIF_RUN_TIMEOUT_S": "900"}},
     },
     "C01": {
         "world": "S", "level": "fault_enumeration",
@@ -39,7 +39,7 @@ PROPS = {
         "eval_extra": ["crash_states"], "probes": ["out-of-order file present", "size-triggered flush"],
         "assumptions": _CRASH_ASSUME,
         "quick": {"runs": 120, "budget_s": 170, "workers": 14},
-        "thorough": {"runs": 3000, "budget_s": 2400, "workers": 16},
+        "thorough": {"runs": 3000, "budget_s": 2400, "workers": 16, "env": {"VERIF_RUN_TIMEOUT_S": "900"}},
     },
     "C03": {
         "world": "S", "level": "fault_enumeration",
@@ -50,7 +50,7 @@ PROPS = {
                                                    "compaction log recovered: files renamed into place at start-up"],
         "assumptions": _CRASH_ASSUME,
         "quick": {"runs": 700, "budget_s": 150, "workers": 14},
-        "thorough": {"runs": 3000, "budget_s": 2400, "workers": 16},
+        "thorough": {"runs": 3000, "budget_s": 2400, "workers": 16, "env": {"VERIF_RUN_TIMEOUT_S": "900"}},
     },
     "C07": {
         "world": "S", "level": "fault_enumeration",
@@ -98,7 +98,7 @@ PROPS = {
                                             "out-of-order merge with max-rows-per-segment not a multiple of 8 (process death), -0.0 with float-compress-algorithm = mlf, float blocks made of zeros only with a -0.0 among them",
                                             "rows always carry the host tag (no row without tags); time/full/snappy needs timestamps >= 2^60 ns apart inside one shard, i.e. a shard duration above 36.5 years"],
         "quick": {"runs": 500, "budget_s": 150, "workers": 14},
-        "thorough": {"runs": 8000, "budget_s": 2400, "workers": 16},
+        "thorough": {"runs": 8000, "budget_s": 2400, "workers": 16, "env": {"VERIF_RUN_TIMEOUT_S": "900"}},
     },
     "C09": {
         "world": "S", "level": "exploration",
@@ -112,6 +112,6 @@ PROPS = {
         "assumptions": ["aggregates are executed the way the repository's own tests do: CreateCursor + ChunkReader with call reader-ops (series plan nil) + StreamAggregateTransform; the sql-side planner is not in the loop",
                         "1 WAL partition (C01's defect kept out)", "float sums compared with 1e-9 relative tolerance; generated floats are multiples of 1/8"],
         "quick": {"runs": 6000, "budget_s": 150, "workers": 14},
-        "thorough": {"runs": 40000, "budget_s": 1800, "workers": 16},
+        "thorough": {"runs": 40000, "budget_s": 1800, "workers": 16, "env": {"VERIF_RUN_TIMEOUT_S": "900"}},
     },
 }
